@@ -550,6 +550,31 @@ fn run_migration(ctx: &Ctx) -> Report {
 }
 
 /// whole-workload digest, identical for any thread count (used across process launches too)
+/// Unrelated instances with *other* parameters (periods, multipliers incl. negative and NaN), built and fed
+/// before the digested workload starts: whatever they do must leave no trace in it. A process-wide cache
+/// filled by "the first instance that comes along" shows as a digest that depends on whether decoys ran.
+pub fn run_decoys(seed: u64) {
+    let mut g = BarGen::new(BarStyle::Mixed, 3.0, seed ^ 0xDEC0);
+    for kind in ALL_KINDS {
+        for (n, k) in [(11usize, 7.5f64), (4, -1.25), (23, f64::NAN), (2, 0.0)] {
+            let mut p = variant(kind, n);
+            if kind.has_multiplier() {
+                p.k = k;
+            }
+            let mut inst = match Inst::try_new(&p) {
+                Ok(i) => i,
+                Err(_) => continue,
+            };
+            for i in 0..40 {
+                let b = g.next();
+                let _ = if kind.has_scalar() && i % 2 == 0 { inst.apply(&Op::NextF(b.c)) } else { inst.apply(&Op::NextBar(b)) };
+            }
+            let _ = inst.display();
+            let _ = inst.try_clone();
+        }
+    }
+}
+
 pub fn workload_digest(seed: u64, threads: usize) -> u64 {
     let workers = 16u64;
     let ds: Vec<u64> = if threads <= 1 {
@@ -613,8 +638,62 @@ fn run_addresses(ctx: &Ctx) -> Report {
     })
 }
 
+// (f) receivers that are *numerically* equal to the source ---------------------------------------------
+/// `clone_from` into a receiver that consumed the same stream with the sign of every zero flipped: it
+/// compares equal to the source field by field (0.0 == -0.0) and is still a different state. The copy must
+/// be bit-exact all the same: both then continue on a stream that again contains zeros of either sign.
+fn run_zero_sign_receivers(ctx: &Ctx) -> Report {
+    let mut jobs = Vec::new();
+    for kind in ALL_KINDS {
+        for n in [1usize, 2, 3, 5] {
+            jobs.push((kind, n));
+        }
+    }
+    let seed = ctx.seed;
+    par_run(jobs, ctx.threads, move |(kind, n), rep| {
+        let p = variant(*kind, *n);
+        let flip = |x: f64| if x == 0.0 { -x } else { x };
+        for r in 0..16u64 {
+            let mut rng = Rng::derive(seed, 0xC05F, r * 31 + *n as u64);
+            // r % 4: 0 = all -0.0, 1 = zeros of random sign between ordinary values, 2 = all +0.0, 3 = zeros of random sign only
+            let zero = |rng: &mut Rng| match r % 4 {
+                0 => -0.0,
+                2 => 0.0,
+                _ => if rng.chance(0.5) { 0.0 } else { -0.0 },
+            };
+            let vals: Vec<f64> = (0..(2 * n + 6)).map(|i| if r % 4 != 1 || i % 2 == 0 { zero(&mut rng) } else { rng.range(1, 9) as f64 * 0.5 }).collect();
+            let mk = |v: f64| if kind.has_scalar() { Op::NextF(v) } else { Op::NextBar(Bar { o: v, h: v, l: v, c: v, v: v.abs() }) };
+            let (mut a, mut e) = (Inst::new(&p), Inst::new(&p));
+            for v in &vals {
+                a.apply(&mk(*v));
+                e.apply(&mk(flip(*v)));
+            }
+            if e.assign_from(&a).is_err() {
+                continue;
+            }
+            let mut hist: Vec<Op> = vals.iter().map(|v| mk(*v)).collect();
+            for i in 0..(2 * n + 6) {
+                let v = if i < 3 { if r % 4 == 2 { 0.0 } else { -0.0 } } else if i % 3 == 2 { 1.25 } else if (i + r as usize) % 2 == 0 { -0.0 } else { 0.0 };
+                let op = mk(v);
+                hist.push(op.clone());
+                let (ra, re) = (a.apply(&op), e.apply(&op));
+                rep.evaluations += 1;
+                if !res_bits_eq(&ra, &re) {
+                    fail(rep, &p, "clone_from_differs", "zero_sign_receiver", format!("{}: a receiver that differed from the source only in the signs of zeros, assigned with clone_from, returns {:?} where the source returns {:?}", p.label(), re, ra), &hist, &hist);
+                    break;
+                }
+            }
+            rep.count("zero_sign_receivers");
+            rep.distinct_by_construction += 1;
+        }
+    })
+}
+
 pub fn run(ctx: &Ctx) -> Report {
     let mut rep = Report::new();
+    if ctx.phase_enabled("zerosign") {
+        rep.merge(run_zero_sign_receivers(ctx));
+    }
     if ctx.phase_enabled("addresses") {
         rep.merge(run_addresses(ctx));
     }
